@@ -25,6 +25,7 @@ from forml.io import dsl
 from forml.io.dsl import parser as parsmod
 from forml.provider.feed.reader import alchemy
 
+from vf.core import caches
 from vf.core.hyp import Campaign, HarnessError, st
 from vf.dslx import ast as A
 from vf.dslx import build, catalog, strategies as S, wellformed
@@ -257,9 +258,7 @@ def _expected_index(stmt, name):
 
 def _clear_caches():
     """Isolation between cases / phases: the process-global memo tables of forml keyed by DSL objects."""
-    dsl.Source.__getitem__.cache_clear()
-    dsl.Source.Schema.__getitem__.cache_clear()
-    alchemy.Reader._parse_statement.cache_clear()  # pylint: disable=protected-access
+    caches.clear(dsl.Source, dsl.Source.Schema, alchemy.Reader)  # wherever forml memoises: not named one by one
 
 
 def _raw(obj, index):
